@@ -76,7 +76,20 @@ def conc_scenarios(raws, tier, seed):
                 if raw.get("ssa"):
                     cfg["apply"] = "ssa"
                 if raw.get("rolling") and rep % 2 == 1:
-                    hook = dict(hook, sync=dict(hook["sync"], failBurst=3))
+                    # the revisioned and a non-revisioned field change together: the first syncs of the rollout have two live
+                    # revisions and BOTH per-revision hook calls fail (error paths of the parallel calls run concurrently)
+                    hook = dict(hook, sync=dict(hook["sync"], failBurst=3, failWhen={"field": "nonrev", "value": "1b", "times": 2 * n_par}))
+                    sched = [dict(st) for st in sched]
+                    first = [st for st in sched if st.get("path") == ["spec", "rev"]]
+                    extra = []
+                    for st in first:
+                        extra.append(dict(st, path=["spec", "nonrev"], value="1b", wait=False))
+                    out_s = []
+                    for st in sched:
+                        out_s.append(st)
+                        if st in first:
+                            out_s.insert(len(out_s) - 1, extra[first.index(st)])
+                    sched = out_s
                 out.append({"id": "conc-%d-%d-%s" % (ri, rep, method), "fam": "conc", "cfg": cfg, "objs": objs, "hook": hook, "sched": sched, "expect": {}})
     return out
 
